@@ -14,6 +14,7 @@ import (
 	"os"
 	"reflect"
 	"strings"
+	"sync"
 
 	"google.golang.org/protobuf/proto"
 
@@ -264,6 +265,27 @@ type implEntry struct {
 	primary bool
 }
 
+// implEntries reads the manager's private entry list (a SEAM: field names of keyset.Manager). If a refactoring of
+// the manager changed the layout, implEntriesOK reports false and the oracles fall back to what Handle() shows.
+var seamLost sync.Once
+
+func (s *sys) implEntriesOK() (out []implEntry, ok bool) {
+	defer func() {
+		if r := recover(); r != nil {
+			out, ok = nil, false
+		}
+		if !ok {
+			seamLost.Do(func() {
+				h.Assume("keyset.Manager's private layout is not the one the entry-list seam knows (refactored): manager states are observed through Handle() only")
+			})
+		}
+	}()
+	if ev := dump.Field(s.km, "entries"); !ev.IsValid() || ev.Kind() != reflect.Slice {
+		return nil, false
+	}
+	return s.implEntries(), true
+}
+
 func (s *sys) implEntries() []implEntry {
 	ev := dump.Field(s.km, "entries")
 	var out []implEntry
@@ -387,7 +409,7 @@ func (s *sys) apply(o op, step int, judge bool, budget int) bool {
 	mo := s.mo
 	var before string
 	if judge && o.kind != opStart {
-		before = fmt.Sprint(s.implEntriesSummary())
+		before = s.observe()
 	}
 	var gotID uint32
 	var gotErr error
@@ -564,7 +586,15 @@ func (s *sys) apply(o op, step int, judge bool, budget int) bool {
 	}
 
 	// learn generated key objects from the implementation (newest entry), for identity tracking
-	ie := s.implEntries()
+	ie, seamOK := s.implEntriesOK()
+	if !seamOK {
+		if hd, err := s.km.Handle(); err == nil {
+			for i := 0; i < hd.Len(); i++ {
+				e, _ := hd.Entry(i)
+				ie = append(ie, implEntry{key: e.Key(), id: e.KeyID(), status: statusOf(e.KeyStatus()), primary: e.IsPrimary()})
+			}
+		}
+	}
 	if n := len(mo.entries); n > 0 && mo.entries[n-1].label == newLabel && mo.entries[n-1].key == nil && len(ie) > 0 && o.kind != opStart {
 		mo.entries[n-1].key = ie[len(ie)-1].key
 	}
@@ -581,12 +611,14 @@ func (s *sys) apply(o op, step int, judge bool, budget int) bool {
 	}
 	// (2) an operation that returns an error leaves the keyset unchanged
 	if gotErr != nil && o.kind != opStart {
-		if after := fmt.Sprint(s.implEntriesSummary()); after != before {
+		if after := s.observe(); after != before {
 			s.viol("error-changes-keyset", "%s returned error %v but changed the keyset: before %s after %s", o.name, gotErr, before, after)
 		}
 	}
 	// (3) implementation entries == model entries (order, identity, id, status, primary)
-	if len(ie) != len(mo.entries) {
+	if !seamOK {
+		// judged through Handle() in (4)
+	} else if len(ie) != len(mo.entries) {
 		s.viol("entries", "%s: implementation has %d entries, model %d", o.name, len(ie), len(mo.entries))
 	} else {
 		for i := range ie {
@@ -676,6 +708,18 @@ func (s *sys) saveHandle(step int) {
 	if hd, err := s.km.Handle(); err == nil {
 		s.handles = append(s.handles, savedHandle{hd, dumpHandle(hd), step})
 	}
+}
+
+// observe: what an operation that fails must leave unchanged — the private entry list, or (seam lost) the handle.
+func (s *sys) observe() string {
+	if _, ok := s.implEntriesOK(); ok {
+		return fmt.Sprint(s.implEntriesSummary())
+	}
+	hd, err := s.km.Handle()
+	if err != nil {
+		return "no-handle"
+	}
+	return dumpHandle(hd)
 }
 
 func (s *sys) implEntriesSummary() []string {
